@@ -14,6 +14,7 @@ from .. import pathq
 from .c07 import msg_mutations
 
 EXPLANATION = __doc__
+WITNESS = ['C15']
 NOT_DECIDED = "fairness between the two arms; behaviour when both sides are ready relies on cancel-safety of recv (C14)"
 ASSUMPTIONS = ["futures::select! polls the futures it is given and drops the losers", "SocketSend::send of each socket type delivers what it is given (C07-C12)"]
 RULES = {
